@@ -72,6 +72,9 @@ class Algebra:
     r: int = 0
     d: int = field(init=False, repr=False, compare=False)  # Total number of dimensions
     signature: np.ndarray = field(default=None, compare=False)
+    # Tuple version of the signature: two algebras are only equal if their metrics agree entry by entry,
+    # (p, q, r) alone does not distinguish e.g. signature=[1, -1] from signature=[-1, 1].
+    _signature_key: tuple = field(default=(), init=False, repr=False)
     start_index: int = field(default=None, repr=False, compare=False)
     basis: List[str] = field(repr=False, default_factory=list)
 
@@ -148,6 +151,7 @@ class Algebra:
             self.start_index = 0 if self.r == 1 else 1
 
         self.d = self.p + self.q + self.r
+        self._signature_key = tuple(int(s) for s in self.signature)
 
         # Setup mapping from binary to canonical string rep and vise versa
         if self.basis:
